@@ -180,8 +180,32 @@ def judge_special(case):
 def dispatch(case):
     return judge_special(case) if case["op"].startswith("special:") else judge(case)
 
+def boundary_cases():
+    """operands on / beyond the boundary of an operation's domain (exact zeros under sqrt, log, negative and fractional powers,
+    zero denominators, probabilities exactly 0 and 1): values and gradients may be infinite or NaN there, which is no licence to
+    write into operands, saved results or the caller's gradient ("for all operand values")"""
+    out = []
+    def add(op, shapes, args=None, pats=None, form=None):
+        c = {"op": op, "shapes": [list(s) for s in shapes], "args": args or {}, "pats": pats, "boundary": True}
+        if form: c["form"] = form
+        out.append(c)
+    for s in ((), (3,), (2, 3), (2, 1, 3)):
+        for pat in ("nonneg0", "with_zeros", "zeros"):
+            add("sqrt", [s], pats=[pat]); add("log", [s], pats=[pat]); add("exp", [s], pats=[pat])
+            for n in ct.POW_N: add("pow", [s], {"n": n}, pats=[pat])
+            for n in ct.RPOW_N + [0, -1]: add("rpow", [s], {"n": n}, pats=[pat])
+            add("rdiv", [s], {"c": 2.5}, pats=[pat]); add("divc", [s], {"c": 0.0}, pats=[pat])
+            add("div", [s, s], pats=["generic", pat]); add("div", [s, s], pats=[pat, pat])
+            add("max", [s], {"dim": None}, pats=[pat]) if "max" in ct.OPS else None
+            for o in ("relu", "selu", "tanh", "sigmoid"): add(o, [s], pats=[pat], form="fn")
+            if len(s) >= 1:
+                add("softmax", [s], {"dim": -1}, pats=[pat], form="fn"); add("log_softmax", [s], {"dim": 0}, pats=[pat], form="fn")
+                add("bce", [s, s], pats=["target01", "target01"], form="fn"); add("bce", [s, s], {"reduction": "mean"}, pats=["target01", "target:0.3"], form="layer")
+                add("bce_logits", [s, s], pats=[pat, "target01"], form="fn"); add("mse", [s, s], pats=[pat, pat], form="fn")
+    return out
+
 def all_cases(tier):
-    return ct.cases(tier, "grad") + cn.cases(tier, "grad") + clone_detach_cases()
+    return ct.cases(tier, "grad") + cn.cases(tier, "grad") + clone_detach_cases() + boundary_cases()
 
 def replay(case):
     with harness.quiet():
@@ -194,7 +218,8 @@ def run(tier, seed):
            "rule": "every case of the tensor-op and nn catalogues (C01/C02 lattices) x operand layouts {separate arrays, strided views of "
                    "one arena with guard cells, overlapping views x / reversed x for same-shaped pairs}: bytes of operands, arena, "
                    "bystander tensor (data and grad), caller's g and result before/after forward and backward; repeat for bit-identity; "
-                   "clone()/detach() storage independence over all shapes of rank <= 3; batch-norm running statistics in training mode "
+                   "clone()/detach() storage independence over all shapes of rank <= 3; operands on the boundary of the domain (exact zeros under "
+                   "sqrt/log/negative and fractional powers, zero denominators, probabilities exactly 0 and 1) where values and gradients may be non-finite; batch-norm running statistics in training mode "
                    "are the only whitelisted change; non-trivial = accepted",
            "samples": r["samples"], "exhaustive": True, "outcomes": r["outcomes"]}
     return {"level": "exploration", "violations": r["violations"], "coverage": cov,
